@@ -117,7 +117,7 @@ CHECKS.update({
                      "start / peer ready / timer-context firing, checking conservation; every capacity x fill x closed x limit cell and every "
                      "deadline-kind x peer-timing scenario runs on real channels and TLC validates results, remaining contents and peer receipts "
                      "(outcomes a race could decide either way are only checked for conservation).",
-                ref="7-C19", note="trusted: TLC, the scenario driver; real timers, with demanded outcomes never depending on margins below 170ms",
+                ref="7-C19", note="trusted: TLC, the scenario driver; real timers, with demanded outcomes never depending on margins below 900ms",
                 technique="TLA+ model checked by TLC + scenario cells on real channels + TLC trace validation"),
 })
 
